@@ -476,7 +476,7 @@ def main(argv):
         # model side
         model_lines = None
         if run.get("model", True) and exe_model is not None and recs:
-            mrc, model_lines, merr2 = model_run(exe_model, P["num"], [r["case"] for r in recs], workdir, tag)
+            mrc, model_lines, merr2 = model_run(exe_model, run.get("num", P["num"]), [r["case"] for r in recs], workdir, tag)
             if mrc != 0 or len(model_lines) != len(recs):
                 problems.append({"kind": "model-run", "what": "model runner rc=%s lines=%s/%s %s" % (
                     mrc, len(model_lines), len(recs), merr2[-300:]), "run": tag})
@@ -601,6 +601,6 @@ def do_replay(pid, P, path):
     if exe_model and run.get("model", True):
         wd = os.path.join(OUT, "run", pid)
         os.makedirs(wd, exist_ok=True)
-        _, lines, _ = model_run(exe_model, P["num"], [body["case"]], wd, "replay")
+        _, lines, _ = model_run(exe_model, run.get("num", P["num"]), [body["case"]], wd, "replay")
         print("model (required):\nOBS " + (lines[0] if lines else "?"))
     return 0
